@@ -18,6 +18,7 @@ from __future__ import annotations
 import itertools
 from typing import Any, Dict, List, Optional, Tuple
 
+from dsmc import reader
 from dsmc.commitworld import TableWorld, outcome_of
 from dsmc.env import ENV
 from dsmc.report import Report, pmap, progress
@@ -201,9 +202,12 @@ class C01World(TableWorld):
             want_rows = [m.hist[i]["rows"] for i in m.order]
             if got_rows != want_rows:
                 problems.append(f"retained snapshots differ: got {got_rows} want {want_rows}")
-            cur = tuple(st.current_rows())
-            if cur != m.cur_rows():
-                problems.append(f"current rows {cur} != model {m.cur_rows()}")
+            try:
+                cur = tuple(st.current_rows())
+                if cur != m.cur_rows():
+                    problems.append(f"current rows {cur} != model {m.cur_rows()}")
+            except reader.ReadError as e:
+                problems.append(f"the current snapshot is not among the retained ones / unreadable: {e}")
             # parent chain / sequence numbers
             snaps = st.md["snapshots"]
             ids = [s["snapshot_id"] for s in snaps]
